@@ -88,3 +88,57 @@ pub fn new_list(a: &[String]) -> Value {
     json!({"violates": want_err != got_err, "input": {"patterns": pats}, "expected": if want_err { "refused (a pattern is empty)" } else { "accepted" },
            "observed": if got_err { "refused" } else { "accepted" }, "replay_args": args})
 }
+
+/// policy-json <star|standing>: policy documents through the real s3s_policy::model serde impls and serde_json.
+/// `star`: the value Action = One("*") written and read back (it comes back as the wildcard).
+/// `standing`: strings that need JSON escapes, documents read from a reader (no borrowed strings), single values vs one-element
+/// arrays, and JSON outside the IAM grammar (unknown effect / version, wrong shapes) — encode∘decode is the identity, the rest is refused
+pub fn policy_json(a: &[String]) -> Value {
+    use s3s_policy::model::*;
+    let mode = a.first().map(String::as_str).unwrap_or("standing").to_owned();
+    let mut bad: Vec<Value> = Vec::new();
+    if mode == "star" {
+        let v = ActionRule::Action(WildcardOneOrMore::One("*".to_owned()));
+        let text = serde_json::to_string(&v).unwrap();
+        let back: ActionRule = serde_json::from_str(&text).unwrap();
+        if back != v { bad.push(json!({"value": "ActionRule::Action(WildcardOneOrMore::One(\"*\"))", "json": text, "read_back": format!("{back:?}")})); }
+        return json!({"violates": !bad.is_empty(), "input": {"mode": mode}, "expected": "every policy value survives JSON encoding and decoding unchanged", "observed": bad, "replay_args": ["policy-json", "star"]});
+    }
+    let docs = [
+        r#"{"Version":"2012-10-17","Statement":{"Effect":"Allow","Principal":"*","Action":"s3:GetObject","Resource":"arn:aws:s3:::bkt/*"}}"#,
+        r#"{"Version":"2012-10-17","Statement":[{"Effect":"Allow","Principal":"*","Action":["s3:GetObject"],"Resource":["arn:aws:s3:::bkt/*"]}]}"#,
+        r#"{"Version":"2008-10-17","Id":"p\"1\\","Statement":[{"Sid":"a\tb","Effect":"Deny","Principal":{"AWS":["arn:aws:iam::1:user/\"q\""]},"NotAction":"s3:Put*","NotResource":["arn:aws:s3:::b\\k/\"x\"","*"],"Condition":{"StringEquals":{"s3:prefix":"a\"b"}}}]}"#,
+        r#"{"Statement":{"Effect":"Allow","Principal":{"AWS":"arn:aws:iam::1:root"},"Action":"*","Resource":"*","Condition":{}}}"#,
+    ];
+    for d in docs {
+        // from_str (borrowing) and from_reader (never borrowing) must agree, and re-encoding must give a document that decodes to the same value
+        let p1: Result<Policy, _> = serde_json::from_str(d);
+        let p2: Result<Policy, _> = serde_json::from_reader(d.as_bytes());
+        match (p1, p2) {
+            (Ok(a1), Ok(a2)) => {
+                if a1 != a2 { bad.push(json!({"document": d, "problem": "from_str and from_reader disagree"})); }
+                let text = serde_json::to_string(&a1).unwrap();
+                let back: Result<Policy, _> = serde_json::from_str(&text);
+                let v_in: Value = serde_json::from_str(d).unwrap(); let v_out: Value = serde_json::from_str(&text).unwrap();
+                if back.as_ref().ok() != Some(&a1) { bad.push(json!({"document": d, "problem": "decode(encode(v)) != v", "encoded": text})); }
+                fn strip(v: Value) -> Value { match v { Value::Object(m) => Value::Object(m.into_iter().filter(|(_, x)| !x.is_null()).map(|(k, x)| (k, strip(x))).collect()), Value::Array(a) => Value::Array(a.into_iter().map(strip).collect()), x => x } }
+                // absent optional members may be written as null; everything else must be the document as written
+                if strip(v_in) != strip(v_out) { bad.push(json!({"document": d, "problem": "the encoded document differs from the one decoded (single vs one-element forms, dropped members)", "encoded": text})); }
+            }
+            (r1, r2) => bad.push(json!({"document": d, "problem": "a document inside the IAM grammar was refused", "from_str": r1.err().map(|e| e.to_string()), "from_reader": r2.err().map(|e| e.to_string())})),
+        }
+    }
+    let refused = [
+        r#"{"Version":"2012-10-18","Statement":{"Effect":"Allow","Action":"*","Resource":"*"}}"#,
+        r#"{"Statement":{"Effect":"Permit","Action":"*","Resource":"*"}}"#,
+        r#"{"Statement":{"Effect":"Allow","Action":7,"Resource":"*"}}"#,
+        // NOT in this set: {"Principal":"everyone"} — Principal's visitor refuses it (under contract), but `#[serde(flatten)]` on an
+        // Option swallows the refusal and the statement is accepted WITHOUT a principal (DESIGN.md 8.20: outside every unit's reach)
+        r#"{"Statement":"Allow"}"#,
+        r#"{"Statement":{"Effect":"Allow","Action":"*"}}"#,
+    ];
+    for d in refused {
+        if serde_json::from_str::<Policy>(d).is_ok() { bad.push(json!({"document": d, "problem": "JSON outside the IAM policy grammar was accepted"})); }
+    }
+    json!({"violates": !bad.is_empty(), "input": {"mode": mode, "documents": docs.len() + refused.len()}, "expected": "encode∘decode is the identity (escaped strings, readers, single vs one-element forms); JSON outside the grammar is refused", "observed": bad, "replay_args": ["policy-json", "standing"]})
+}
